@@ -221,11 +221,15 @@ for nm in ('forward', 'reverse', 'forward_twice', 'reverse_twice'):
 GM = 'src/generic_modes.rs::'
 ob('C06.thr', ['C06'], 'generic_modes/wrap', 'apply_filters_threshold_c4', functions=[GM + 'apply_filters', MA + 'filter'], inst='u64', needs_parts=['merge_ska_array/common'], caps={'ACAP': 4, 'SCAP': 1, 'MCAP': 1}, models=['ndarray'],
    sym='min_freq: any f64 in [0,1]; one row of 4 symbols over {A,C,G,T,-}', oracle='row emitted iff present in >= ceil(4 x min_freq) samples (IEEE double arithmetic, the CLI\'s own)', bounds='4 samples', timeout=1800, mem_gb=12)
-for (c, f2, amb, tier) in [(2, 0, True, 'thorough'), (2, 0, False, 'thorough'), (2, 1, True, 'thorough'), (2, 1, False, 'thorough'), (2, 2, True, 'thorough'), (2, 2, False, 'quick'),
-                           (3, 0, False, 'thorough'), (3, 1, False, 'quick'), (3, 2, False, 'thorough'), (3, 1, True, 'thorough')]:
-    an = 'ambig' if amb else 'noambig'
-    ob('C14.wrap.c%d.f%d.%s' % (c, f2, an), ['C14'], 'generic_modes/wrap', 'dist_wrap_c%d_f%d_%s' % (c, f2, an), tier=tier,
-       functions=[GM + 'distance', GM + 'apply_filters', MA + 'filter', MA + 'update_counts'], inst='u64', needs_parts=['merge_ska_array/common'], caps={'ACAP': c, 'SCAP': c, 'MCAP': 1}, models=['ndarray', 'hashbrown', 'rayon (pool)'],
-       stubs=['MergeSkaArray::distance -> recorder that compares (constant, rows) with the expectation and ends the path (environment stub)', 'io_utils::set_ostream -> in-memory sink (environment stub)'],
-       sym='one row x %d samples over {A,C,G,T,-}; min_freq = %s; filter ambiguous = %s' % (c, f2 / 2.0, amb), oracle='recorded constant = constant sites among k-mers passing the frequency threshold; table handed on = k-mers passing it and not constant',
-       bounds='1 k-mer, %d samples' % c, timeout=3600, mem_gb=28 if amb else 16, mem_expect_gb=14 if amb else 5)
+for c, pats in ((2, (1, 2, 3)), (3, (1, 5, 6, 7))):
+    for pm in pats:
+        for f2 in (0, 1, 2):
+            for amb in (False, True):
+                an = 'ambig' if amb else 'noambig'
+                quick = (c, pm, f2, amb) in ((2, 2, 2, False), (2, 3, 1, False), (3, 5, 1, False), (2, 1, 2, True))
+                ob('C14.wrap.c%d.p%d.f%d.%s' % (c, pm, f2, an), ['C14'], 'generic_modes/wrap', 'dist_wrap_c%d_p%d_f%d_%s' % (c, pm, f2, an), tier='quick' if quick else 'thorough',
+                   functions=[GM + 'distance', GM + 'apply_filters', MA + 'filter', MA + 'update_counts'], inst='u64', needs_parts=['merge_ska_array/common'], caps={'ACAP': c, 'SCAP': c, 'MCAP': 1}, models=['ndarray', 'hashbrown', 'rayon (pool)'],
+                   stubs=['MergeSkaArray::distance -> recorder that compares (constant, rows) with the expectation and ends the path (environment stub)', 'io_utils::set_ostream -> in-memory sink (environment stub)'],
+                   sym='one row x %d samples: bases symbolic over {A,C,G,T}, presence pattern concrete (mask %d); min_freq = %s; filter ambiguous = %s' % (c, pm, f2 / 2.0, amb),
+                   oracle='recorded constant = constant sites among k-mers passing the frequency threshold; table handed on = k-mers passing it and not constant',
+                   bounds='1 k-mer, %d samples' % c, timeout=3600, mem_gb=20, mem_expect_gb=8 if amb else 5)
